@@ -175,7 +175,15 @@ fn deep(rng: &mut Rng, d: usize) -> String {
             close.insert(0, '}');
         }
     }
-    format!("{}{}{}", open, numeral(rng), close)
+    // the innermost value is a container with several members (order and count are visible), and
+    // some levels carry a sibling next to the nested child
+    let inner = match rng.below(4) {
+        0 => numeral(rng),
+        1 => format!("[{},{},{}]", numeral(rng), jstring(rng), numeral(rng)),
+        2 => "[1,2,3,[4,5],{\"k\":[6,7]}]".to_string(),
+        _ => format!("{{\"a\":[1,2,3],\"b\":{},\"\":[true,false]}}", jstring(rng)),
+    };
+    format!("{}{}{}", open, inner, close)
 }
 
 /// Wide documents: long arrays, objects with many members, long strings (sizes around the
@@ -333,6 +341,14 @@ pub fn run(args: &Args) {
                 }
             }
             other => rep.violation("C08/to_value-failed", json!({"text": text, "got": format!("{:?}", other.map(|r| r.map(|_| ())))})),
+        }
+        // out again through the value's own serde Deserializer (`T::deserialize(variable)`) into a serde_json Value
+        if i % 4 == 1 {
+            use serde::Deserialize;
+            match guarded(|| serde_json::Value::deserialize(var.clone())) {
+                Ok(Ok(back)) if val_identical(&back, &v1) => rep.count("deserializer_bridge_lossless"),
+                other => rep.violation("C08/value-bridge-lossy/deserializer", json!({"text": text, "back": format!("{:?}", other.map(|r| r.map(|v| v.to_string()).map_err(|e| e.to_string())))})),
+            }
         }
         // the same JSON value through the generic serde path (Variable::from_serializable), now and
         // then right after a conversion that fails half-way down: a failure must leave nothing behind
